@@ -302,6 +302,9 @@ func vTransOK(t pr.SDimensions) bool {
 //@   modifies anything
 //@   unclaimed call-*-pre* "box accessors on laid-out boxes"
 //@   call Clip#1 assert[overflow-path] calls(roundedBoxPath) == 1
+// the overflow clip is set on the canvas the sub-tree is painted on (the opacity group when there is one), inside the
+// save / restore pair of the content: it clips the descendants and nothing else
+//@   call State#1 assert[clip-on-the-painting-canvas] arg0 == ctx.dst
 // C16, CSS 2.1 Appendix E, the content of one stacking context is painted in this order: (3) the child
 // contexts with a negative z-index, in list order; (4) the backgrounds and borders of the in-flow,
 // non-positioned block-level descendants; (5) the floats; (6, 7) the inline content and the replaced
